@@ -714,7 +714,9 @@ std::pair<JunctionRef *, ConnRef *> ConnRef::splitAtSegment(
         // Create a new connection routing from the junction to the original
         // connector's endpoint.
         ConnEnd newConnSrc = ConnEnd(newJunction);
-        ConnEnd newConnDst = *m_dst_connend;
+        // A destination that is a free point has no stored ConnEnd.
+        ConnEnd newConnDst = (m_dst_connend) ? *m_dst_connend :
+                ConnEnd(m_dst_vert->point);
         newConn = new ConnRef(router(), newConnSrc, newConnDst);
         
         // Reroute the endpoint of the original connector to attach to the
